@@ -502,3 +502,44 @@ func VerifHarness_C14_rev_clienthello_extension_strict() {
 // header's fragment-length field by design (dtlcpUnmarshalHeader), so bytes of the slice beyond that field are
 // ignored; readHandshake never hands over such a slice (it rebuilds the header after reassembly), which is the
 // framing precondition stated at the top of this file. Observation O-6 in DESIGN.md, not alarmed on.)
+
+// C14 strictness inside the ServerHello's ALPN extension: the server's reply carries EXACTLY one protocol name. The
+// real encoder's output for one name, with one arbitrary byte appended inside the protocol-name list (every
+// enclosing length adjusted: the list now holds the name plus junk or the start of a second name), must be refused.
+//
+//verif:harness props=C14 paths=2000 reach=checked
+func VerifHarness_C14_rev_serverhello_alpn_strict() {
+	m := &serverHelloMsg{vers: verifNondetU16("vers"), random: verifNondetBytes("random", 32), cipherSuite: verifNondetU16("suite"), alpnProtocol: "a"}
+	raw, err := m.marshal()
+	verifAssert("C14.shalpn.marshal", err == nil)
+	var probe serverHelloMsg
+	verifAssert("C14.shalpn.validDecodes", probe.unmarshal(append([]byte(nil), raw...)) && probe.alpnProtocol == "a")
+	// layout: header | version(2) random(32) sidlen(1) suite(2) comp(1) | extblock len(2) | type(2) len(2) | list len(2) | name len(1) name
+	fixed := vhsHeaderLen + 2 + 32 + 1 + 2 + 1
+	if len(raw) != fixed+2+4+2+2 {
+		verifAssert("C14.shalpn.layout", false)
+		return
+	}
+	bad := append(append([]byte(nil), raw...), verifNondetByte("extraByte"))
+	bump16 := func(off int) {
+		v := int(bad[off])<<8 | int(bad[off+1])
+		v++
+		bad[off], bad[off+1] = byte(v>>8), byte(v)
+	}
+	bump24 := func(off int) {
+		v := int(bad[off])<<16 | int(bad[off+1])<<8 | int(bad[off+2])
+		v++
+		bad[off], bad[off+1], bad[off+2] = byte(v>>16), byte(v>>8), byte(v)
+	}
+	bump24(1)
+	if vhsHeaderLen == 12 {
+		bump24(9)
+	}
+	bump16(fixed)     // extension block
+	bump16(fixed + 4) // ALPN extension
+	bump16(fixed + 6) // protocol name list
+	var d serverHelloMsg
+	ok := d.unmarshal(bad)
+	verifReach("checked")
+	verifAssert("C14.shalpn.secondNameOrJunkRejected", !ok)
+}
